@@ -539,6 +539,13 @@ static void collect_shapes(struct shape **out, int *n, int with_rs, int with_xor
     *out = sh; *n = c;
 }
 
+/* priority order of the short-length alphabet, used when a plan takes only the first few */
+static int len_rank(uint64_t len, uint64_t a)
+{
+    uint64_t pr[7] = { 2 * a + 3, a - 1, 0, a + 1, 1, a, 1000 };
+    for (int i = 0; i < 7; i++) if (pr[i] == len) return i;
+    return 7;
+}
 static void plan_roundtrip(const char *prop, int with_rs, int with_xor, int with_isa, int recon)
 {
     int thorough = !strcmp(vh_tier(), "thorough");
@@ -547,6 +554,10 @@ static void plan_roundtrip(const char *prop, int with_rs, int with_xor, int with
     pl.do_decode = !recon; pl.do_recon_all = recon; pl.do_recon_oor = recon;
     pl.ex_n = (int)vh_opt("ex_n", thorough ? 16 : 12);
     pl.perm_max = thorough ? 5 : 4;
+    int max_n = (int)vh_opt("max_n", 32);
+    int isa_n = (int)vh_opt("isa_n", 32);                 /* ISA-L shapes above this n are left to C19 (named shapes stay) */
+    int ex_lens = (int)vh_opt("ex_lens", recon ? 3 : 7);   /* lengths taken on exhaustively explored shapes */
+    int st_lens = (int)vh_opt("st_lens", thorough ? (recon ? 3 : 7) : (recon ? 2 : 4));  /* ... on structured-family shapes */
     struct shape *sh; int ns; collect_shapes(&sh, &ns, with_rs, with_xor, with_isa);
     int small_n = (int)vh_opt("small_n", 6);
     for (int i = 0; i < ns; i++) {
@@ -554,6 +565,8 @@ static void plan_roundtrip(const char *prop, int with_rs, int with_xor, int with
         int n = sh[i].k + sh[i].m;
         uint64_t a = (uint64_t)sh[i].k * word_bytes(sh[i].be);
         int full = n <= small_n || named_shape(&sh[i]);
+        if (is_isa(sh[i].be) && n > isa_n && !named_shape(&sh[i])) continue;
+        if (n > max_n && !named_shape(&sh[i])) continue;
         int npat = thorough ? PAT_N : 2;
         for (int li = 0; li < nl; li++) for (int pat = 0; pat < npat; pat++) for (int ct = CHKSUM_NONE; ct <= CHKSUM_CRC32; ct++) {
             int big = li >= big_from;
@@ -565,12 +578,12 @@ static void plan_roundtrip(const char *prop, int with_rs, int with_xor, int with
             } else if (full) {               /* small and named shapes: full presentation product on two lengths */
                 pm = (pat == PAT_RAMP && (len == a || len == 2 * a + 3)) ? 2 : 1;
                 if (recon && pm == 2 && len == a) pm = 1;
+                if (recon && n > small_n && pat != PAT_RAMP) continue;
             } else {                         /* all other shapes: identity + one round-robin presentation per erasure set */
                 if (pat != PAT_RAMP && ct == CHKSUM_NONE) continue;
-                /* quick tier: shapes above the exhaustive threshold take four of the seven lengths */
-                if (!thorough && n > pl.ex_n && (len == 1 || len == a || len == 1000)) continue;
+                if (len_rank(len, a) >= (n > pl.ex_n ? st_lens : ex_lens)) continue;
                 pm = 1;
-                if (recon) { if (pat != PAT_RAMP) continue; if (!(len == 0 || len == a - 1 || len == 2 * a + 3)) continue; pm = len == 2 * a + 3 ? 1 : 0; }
+                if (recon) { if (pat != PAT_RAMP) continue; pm = len == 2 * a + 3 ? 1 : 0; if (n > pl.ex_n && ct != (len == 2 * a + 3 ? CHKSUM_CRC32 : CHKSUM_NONE)) continue; }
             }
             explore_stripe(&pl, sh[i], ct, len, pat, NULL, pm, tmax);
         }
@@ -584,9 +597,11 @@ static void plan_c02(int with_rs, int with_xor, int with_isa, const char *prop)
     struct plan pl; memset(&pl, 0, sizeof pl);
     pl.prop = prop; pl.strict = 0; pl.do_decode = 1; pl.do_recon_missing = 1; pl.pres_mode = 3;
     int all_n = (int)vh_opt("all_n", thorough ? 14 : 12);
+    int max_n = (int)vh_opt("max_n", 32);
     struct shape *sh; int ns; collect_shapes(&sh, &ns, with_rs, with_xor, with_isa);
     for (int i = 0; i < ns; i++) {
         int n = sh[i].k + sh[i].m;
+        if (n > max_n && !named_shape(&sh[i])) continue;
         uint64_t a = (uint64_t)sh[i].k * word_bytes(sh[i].be);
         uint64_t L[2] = { 2 * a + 3, 1 }; int nl = n <= 8 ? 2 : 1;
         for (int li = 0; li < nl; li++) {
@@ -647,7 +662,9 @@ static void needed_case(struct stripe *s, uint32_t R, uint32_t X, int desc_order
     }
     /* constructive follow-up: reconstruct every requested fragment from only the N fragments */
     uint32_t E = ~Nm & (uint32_t)((1ull << n) - 1);
-    if (__builtin_popcount(E) <= s->sh.m && (!is_isa(s->sh.be) || isa_first_k_invertible(s, E))) {
+    /* only where the public reconstruct is itself obliged to succeed (C01/C03 domain); for flat-XOR lists that leave
+     * hd or more fragments absent the GF(2) rank test above is the whole oracle */
+    if (tolerated(s, E)) {
         struct pres id = { O_ID, 0, D_NONE, GP_END, 0 }; int list[64]; int nf = build_list(s, E, &id, list);
         for (int r = 0; r < n; r++) if (R >> r & 1) {
             uint8_t *out; int rc2 = call_recon(s, list, nf, GP_END, r, &out);
@@ -1078,16 +1095,19 @@ static void plan_c19_inject(void)
                     uint32_t E = Es[step % 3]; int list[64]; int nf = build_list(&s, E, &id, list);
                     pos++;
                     int inject = (pos == f1 || (f2 != f1 && pos == f2));
-                    *fail_at = inject ? *calls + 1 : 0;
+                    long target = *calls + 1;
+                    *fail_at = inject ? target : 0;
                     long c0 = ledger_count();
                     if (step < 3) {
                         struct dec_res r = call_decode(&s, list, nf, GP_END, 0);
+                        inject = inject && *calls >= target;     /* the fast path needs no inversion: nothing was made to fail */
                         if (inject) { vh_nontrivial(); if (r.rc >= 0) vh_violation("inversion-failure-ignored", "decode returned %d although matrix inversion failed", r.rc); }
                         else check_decode(&s, E, &r, 1);
                         dec_release(&s, &r);
                     } else {
                         int dest = step == 4 ? sh.k : 0;
                         uint8_t *out; int rc = call_recon(&s, list, nf, GP_END, dest, &out);
+                        inject = inject && *calls >= target;
                         if (inject) { vh_nontrivial(); if (rc >= 0) vh_violation("inversion-failure-ignored", "reconstruct returned %d although matrix inversion failed", rc); }
                         else check_recon(&s, E, dest, rc, out, 1);
                     }
@@ -1119,10 +1139,10 @@ static void engine(void)
     else if (!strcmp(p, "c08")) plan_c08();
     else if (!strcmp(p, "c15")) plan_c15();
     else if (!strcmp(p, "c16s")) plan_c16s();
-    else if (!strcmp(p, "c19")) {
-        plan_roundtrip("C19rt", 0, 0, 1, 0); plan_roundtrip("C19rc", 0, 0, 1, 1);
-        plan_c02(0, 0, 1, "C19sc"); plan_c06(0, 0, 1, "C19fn"); plan_c19_inject();
-    }
+    else if (!strcmp(p, "c19rt")) plan_roundtrip("C19rt", 0, 0, 1, 0);
+    else if (!strcmp(p, "c19rc")) plan_roundtrip("C19rc", 0, 0, 1, 1);
+    else if (!strcmp(p, "c19sc")) plan_c02(0, 0, 1, "C19sc");
+    else if (!strcmp(p, "c19fn")) { plan_c06(0, 0, 1, "C19fn"); plan_c19_inject(); }
     else { fprintf(stderr, "unknown plan %s\n", p); exit(2); }
 }
 int main(int argc, char **argv) { return vh_main(argc, argv, engine); }
